@@ -72,6 +72,10 @@ func (m MapSchema[K, V]) Values() V {
 	return m.ValuesValue
 }
 
+func (m MapSchema[K, V]) contained() Type {
+	return m.ValuesValue
+}
+
 func (m MapSchema[K, V]) Min() *int64 {
 	return m.MinValue
 }
